@@ -175,7 +175,7 @@ fn sr_case() -> impl Strategy<Value = SrCase> {
         ops,
         proptest::collection::vec(gen::word(), 0..4),
         gen::bytes32(),
-        prop_oneof![8 => proptest::collection::vec(prop_oneof![gen::word(), -2i64..3], 0..7), 1 => Just(vec![1; 4085])],
+        prop_oneof![8 => proptest::collection::vec(prop_oneof![gen::word(), -2i64..3], 0..7), 1 => prop_oneof![Just(4085usize), Just(1000), Just(1001), Just(1024), Just(2048), 7usize..4086].prop_map(|n| (0..n as i64).collect::<Vec<i64>>())],
         proptest::option::weighted(0.1, gen::index_like(6)),
         prop_oneof![4 => 0i64..6, 2 => gen::boundary_word(), 1 => gen::word()],
         (values(), values(), 0usize..3, any::<bool>(), 0i64..3),
@@ -326,7 +326,7 @@ fn oracle_reuse(rc: &ReuseCase, obs: &mut Obs) -> Result<(), Violation> {
 pub fn property() -> Property {
     Property {
         id: "C11",
-        rule: "generated single state-read executions: op in {KeyRange, KeyRangeExtern, PostKeyRange, PostKeyRangeExtern} x key length 0..6 (and 4085) x key-length operand (correct or index-like) x count (0..5, boundary words, random) x memory length (exact fit, one short, roomy, 0, 10240, small) x address (0, small, index-like) x answers (scripted lists: ragged / empty values / fewer or more than requested; map-backed views with different contents per view and contract; scripted errors; failing contracts). Oracle: exactly one recorded request with the right view, contract (solved predicate's or the 4 popped words), key and count; memory and stack equal RefVm's independently computed layout (pairs then values, everything else unchanged, length unchanged); misfit/bad operands => error and no request; state error payload unchanged. Non-trivial = at least one value written and (ragged lengths, non-zero address or count != number returned), or a state error.",
+        rule: "generated single state-read executions: op in {KeyRange, KeyRangeExtern, PostKeyRange, PostKeyRangeExtern} x key length 0..6 (and long keys: 1000, 1001, 1024, 2048, 4085, random up to 4085 words) x key-length operand (correct or index-like) x count (0..5, boundary words, random) x memory length (exact fit, one short, roomy, 0, 10240, small) x address (0, small, index-like) x answers (scripted lists: ragged / empty values / fewer or more than requested; map-backed views with different contents per view and contract; scripted errors; failing contracts). Oracle: exactly one recorded request with the right view, contract (solved predicate's or the 4 popped words), key and count; memory and stack equal RefVm's independently computed layout (pairs then values, everything else unchanged, length unchanged); misfit/bad operands => error and no request; state error payload unchanged. Non-trivial = at least one value written and (ragged lengths, non-zero address or count != number returned), or a state error.",
         assumptions: vec!["RefVm implements the documented [addr,len]-pairs-then-values layout independently"],
         health: vec![("sr.request_and_layout", "values-written", 150), ("sr.request_and_layout", "state-error", 30)],
         subs: vec![
